@@ -11,13 +11,25 @@ package llm
 //@   ensures [C13.validate] result == nil ==> okVerdict(res.Verdict) && okEvidence(res.Evidence)
 //@   loop 1 invariant 0 <= #i && forall k in 0..#i :: !contains(lower(res.Evidence), forbiddenPhrases[k])
 
+// The model's answer is accepted only if the whole cleaned text is one JSON value: it is decoded with json.Unmarshal
+// (which rejects trailing content), never with a streaming decoder (which stops after the first value).
 //@ func parseLLMJSON
 //@   noframe
+//@   ghost whole bool
+//@   init whole = false
+//@   call encoding/json.Unmarshal update whole = result == nil
+//@   call (*encoding/json.Decoder).Decode transitively assert [C13.parse] false
 //@   ensures [C13.parse] result1 != nil ==> result0.Verdict == "" && result0.Evidence == ""
+//@   ensures [C13.parse] result1 == nil ==> whole
 
 //@ func scanForInjection
 //@   noframe
+//@   ghost whole bool
+//@   init whole = false
+//@   call encoding/json.Unmarshal update whole = result == nil
+//@   call (*encoding/json.Decoder).Decode transitively assert [C13.screen] false
 //@   ensures [C13.screen] result2 != nil ==> !result0
+//@   ensures [C13.screen] result2 == nil && result0 ==> whole
 
 //@ func callOpenAI
 //@   noframe
